@@ -9,6 +9,7 @@ import (
 	"bytes"
 	"encoding/json"
 	"fmt"
+	"math/rand"
 	"os"
 	"path/filepath"
 	"runtime"
@@ -45,6 +46,7 @@ type c09Thread struct {
 	panicked string
 	depth    int // admissions held, as seen from the yield events
 	virtual  int // pending model-only body steps
+	from     string // yield point it was last released from
 }
 
 type c09Sched struct {
@@ -89,7 +91,7 @@ func doneClosed(ctx py.Context) bool {
 	}
 }
 
-func c09Run(kinds string, trace []int, scratch string) c09Obs {
+func c09Run(kinds string, trace []int, scratch string, explore *rand.Rand) c09Obs {
 	obs := c09Obs{Case: kinds + ";" + fmt.Sprint(trace)}
 	s := &c09Sched{byGid: map[int64]int{}, events: make(chan c09Event, 64), free: true}
 	stdlib.VerifYield = s.yield
@@ -175,6 +177,7 @@ func c09Run(kinds string, trace []int, scratch string) c09Obs {
 		}
 	}
 	timeoutMsg := ""
+	var book func(t *c09Thread)
 	step := func(tid int) bool {
 		t := s.threads[tid]
 		if t.virtual > 0 { // model-only body step of a kind whose body cannot park
@@ -186,12 +189,18 @@ func c09Run(kinds string, trace []int, scratch string) c09Obs {
 			return false
 		}
 		from := t.parked
+		t.from = from
 		t.parked = ""
 		t.resume <- struct{}{}
 		if !c09Await(s, tid, &obs) {
 			timeoutMsg = fmt.Sprintf("thread %d released from %q did not reach a yield point or return", tid, from)
 			return false
 		}
+		book(t)
+		return true
+	}
+	book = func(t *c09Thread) {
+		from := t.from
 		// bookkeeping of admissions from the event sequence
 		switch from {
 		case "push":
@@ -215,13 +224,68 @@ func c09Run(kinds string, trace []int, scratch string) c09Obs {
 			}
 		}
 		if t.kind == 'C' && t.returned {
-			if !doneClosed(ctx) || anyInside() {
-				viol("Close returned before the context was fully closed")
+			if anyInside() {
+				viol("Close returned while an admitted execution had not finished")
 			}
 		}
-		return true
 	}
-	if obs.Disagree == "" {
+	if explore != nil && obs.Disagree == "" {
+		// implementation-driven random exploration (search only): release a random parked
+		// thread, then collect whatever events arrive within a short window
+		for steps := 0; steps < 200; steps++ {
+			var parked []int
+			inflight := 0
+			for i, t := range s.threads {
+				if t.parked != "" {
+					parked = append(parked, i)
+				} else if !t.returned {
+					inflight++
+				}
+			}
+			if len(parked) == 0 && inflight == 0 {
+				break
+			}
+			if len(parked) > 0 {
+				tid := parked[explore.Intn(len(parked))]
+				t := s.threads[tid]
+				obs.Case += fmt.Sprintf(" %d", tid)
+				if t.virtual > 0 {
+					t.virtual--
+					continue
+				}
+				t.from = t.parked
+				t.parked = ""
+				t.resume <- struct{}{}
+			}
+			wait := 20 * time.Millisecond
+			if len(parked) == 0 {
+				wait = 300 * time.Millisecond
+			}
+			got := false
+		collect:
+			for {
+				select {
+				case ev := <-s.events:
+					t := s.threads[ev.tid]
+					if ev.point == "return" {
+						t.returned = true
+					} else {
+						t.parked = ev.point
+					}
+					book(t)
+					got = true
+					wait = 2 * time.Millisecond
+				case <-time.After(wait):
+					break collect
+				}
+			}
+			if !got && len(parked) == 0 {
+				obs.Disagree = "explore: all unfinished threads are blocked (deadlock)"
+				viol("deadlock: unfinished threads are all blocked")
+				break
+			}
+		}
+	} else if obs.Disagree == "" {
 		for _, tid := range trace {
 			if tid < 0 || tid >= len(s.threads) || !step(tid) {
 				obs.Disagree = timeoutMsg
@@ -319,11 +383,17 @@ func c09Main(args []string) int {
 		}
 		parts := strings.SplitN(line, ";", 2)
 		var trace []int
-		for _, f := range strings.Fields(parts[1]) {
-			n, _ := strconv.Atoi(f)
-			trace = append(trace, n)
+		var explore *rand.Rand
+		if strings.HasPrefix(parts[1], "explore") {
+			seed, _ := strconv.ParseInt(strings.TrimSpace(strings.TrimPrefix(parts[1], "explore")), 10, 64)
+			explore = rand.New(rand.NewSource(seed))
+		} else {
+			for _, f := range strings.Fields(parts[1]) {
+				n, _ := strconv.Atoi(f)
+				trace = append(trace, n)
+			}
 		}
-		o := c09Run(parts[0], trace, scratch)
+		o := c09Run(parts[0], trace, scratch, explore)
 		b, _ := json.Marshal(o)
 		out.Write(b)
 		out.WriteByte('\n')
